@@ -15,7 +15,8 @@ package runner
 //     (the sender really was blocked until then);
 //   - an acquire is logged after it happened, a release before it happens.
 // With VERIF_YIELD=<seed> the hooks inject runtime.Gosched / short sleeps chosen by a stateless hash of
-// (seed, site, action name) to widen the explored schedules. Neither variable set: the hooks only test two
+// (seed, site, action name) to widen the explored schedules
+// (longer sleeps directly after a decrement of a pending counter). Neither variable set: the hooks only test two
 // booleans that are written once during package initialisation (no synchronisation is added, so a -race
 // build observes the scheduler's own synchronisation only).
 
@@ -112,6 +113,10 @@ func verifYield(site int, a action) {
 	h := fnv.New64a()
 	fmt.Fprintf(h, "%d/%d/%s", verifSeedVal, site, verifName(a))
 	v := h.Sum64()
+	if site == 9 && v%4 == 0 {
+		time.Sleep(time.Duration((v>>8)%20000) * time.Microsecond)
+		return
+	}
 	switch v % 8 {
 	case 4, 5:
 		runtime.Gosched()
@@ -282,11 +287,13 @@ func verifAcquired(a action, ok bool) {
 	verifYield(4, a)
 }
 
+// verifStart is called after the action looked at its own and its dependencies' failed flags and before
+// exec; it logs whether exec is going to be skipped (the action is marked failed).
 func verifStart(a action) {
-	verifYield(5, a)
 	if verifTraceOn {
-		verifT.ev("start", a, nil, 0, false)
+		verifT.ev("start", a, nil, verifBool(a.IsFailed()), false)
 	}
+	verifYield(5, a)
 }
 
 func verifEnd(a action) {
@@ -319,6 +326,7 @@ func verifDecEnd(a, t action, last bool) {
 		verifT.ev("dec", a, t, verifBool(last), true)
 		verifT.mu.Unlock()
 	}
+	verifYield(9, t)
 }
 
 // verifEnqueue is called immediately before the send.
